@@ -197,10 +197,15 @@ def render_wsdl(ss):
     f0 = ss.files[0]
     files = ss.files
     tns = f0.prefixes[0]
+    own_wsdl_ns = w.uri != f0.uri
+    if own_wsdl_ns:
+        tns = next(p for p in ("wsd", "wns", "defs", "svcns") if p not in f0.prefixes.values() and p != f0.xs_prefix)
     out = ['<?xml version="1.0" encoding="UTF-8"?>']
     decl = f'<wsdl:definitions xmlns:wsdl="{WSDL_NS}" xmlns:soap="{SOAP_NS}" xmlns:{f0.xs_prefix}="{XSD_NS}" targetNamespace={quoteattr(w.uri)}'
     for k, p in sorted(f0.prefixes.items(), key=lambda kv: kv[1]):
         decl += f' xmlns:{p}={quoteattr(files[k].uri)}'
+    if own_wsdl_ns:
+        decl += f' xmlns:{tns}={quoteattr(w.uri)}'
     decl += f' name={quoteattr(w.service.xml)}>'
     out.append(decl)
     out.append('  <wsdl:types>')
